@@ -183,12 +183,12 @@ def _prober(key, cfg):
     return p
 
 
-def run_inproc(items, schedule, n_workers, args, as_generator=False, die=True, kind="dict"):
+def run_inproc(items, schedule, n_workers, args, as_generator=False, die=True, kind="dict", cores=None):
     """Real parallel_add under the steered synchronous context. Returns (outcome, result|exc, ctx)."""
     s = sk()
     handles, table = materialise(kind, items)
     src = (it for it in handles) if as_generator else list(handles)
-    with fakectx.Patched(s.helpers, schedule) as ctx:
+    with fakectx.Patched(s.helpers, schedule, cores=cores) as ctx:
         try:
             res = s.helpers.parallel_add(src, callbacks.process_item, n_workers=n_workers, event_file=None,
                                          die=fakectx.SimulatedDeath if die else None, table=table, **args)
